@@ -119,33 +119,33 @@ Qed.
 (* what a successful / failed fetchImportSource does to the state *)
 Lemma fis_ok : forall strict fs st o sid url st1 errs sm,
   fetch_import_source strict fs st o sid url = FMok st1 errs sm ->
-  lib_get (lib st1) (mk_key url) = Some sm /\
+  lib_get (lib st1) (key_of o url) = Some sm /\
   issues_rev st1 = issues_rev st /\
   ((lib st1 = lib st /\ errs = []) \/
-   (lib st1 = (mk_key url, sm) :: lib st /\ fs_get fs (mk_key url) = Parsed errs sm
-    /\ lib_get (lib st) (mk_key url) = None)).
+   (lib st1 = (key_of o url, sm) :: lib st /\ fs_get fs (key_of o url) = Parsed errs sm
+    /\ lib_get (lib st) (key_of o url) = None)).
 Proof.
   intros strict fs st o sid url st1 errs sm. unfold fetch_import_source, linked_model.
   destruct (has_link st o sid) eqn:Hl.
-  - destruct (lib_get (lib st) (mk_key url)) eqn:Hg.
+  - destruct (lib_get (lib st) (key_of o url)) eqn:Hg.
     + intros E. inversion E; subst. auto.
-    + unfold fetch_model. rewrite Hg. destruct (fs_get fs (mk_key url)) eqn:Hf; intros E; inversion E; subst.
+    + unfold fetch_model. rewrite Hg. destruct (fs_get fs (key_of o url)) eqn:Hf; intros E; inversion E; subst.
       cbn. rewrite String.eqb_refl. split; [reflexivity|]. split; [reflexivity|]. right. auto.
-  - unfold fetch_model. destruct (lib_get (lib st) (mk_key url)) eqn:Hg.
+  - unfold fetch_model. destruct (lib_get (lib st) (key_of o url)) eqn:Hg.
     + intros E. inversion E; subst. cbn. auto.
-    + destruct (fs_get fs (mk_key url)) eqn:Hf; intros E; inversion E; subst.
+    + destruct (fs_get fs (key_of o url)) eqn:Hf; intros E; inversion E; subst.
       cbn. rewrite String.eqb_refl. split; [reflexivity|]. split; [reflexivity|]. right. auto.
 Qed.
 
 Lemma fis_fail : forall strict fs st o sid url st1,
   fetch_import_source strict fs st o sid url = FMfail st1 ->
-  lib st1 = lib st /\ links st1 = links st /\ fs_model fs (mk_key url) = None /\
+  lib st1 = lib st /\ links st1 = links st /\ fs_model fs (key_of o url) = None /\
   exists r, issues_rev st1 = {| i_rule := r; i_item := ItImport o url |} :: issues_rev st.
 Proof.
   intros strict fs st o sid url st1. unfold fetch_import_source.
   destruct (linked_model st o sid url); [discriminate|].
-  unfold fetch_model. destruct (lib_get (lib st) (mk_key url)); [discriminate|].
-  unfold fs_model. destruct (fs_get fs (mk_key url)); intros E; inversion E; subst; cbn; eauto 7.
+  unfold fetch_model. destruct (lib_get (lib st) (key_of o url)); [discriminate|].
+  unfold fs_model. destruct (fs_get fs (key_of o url)); intros E; inversion E; subst; cbn; eauto 7.
 Qed.
 
 Lemma check_cycle_false_notin : forall st m0 hist h,
@@ -169,7 +169,7 @@ Qed.
 Definition srcs_rev (o : owner) (hist : list epoch) : list string := model_url o :: rev (map e_src hist).
 
 Lemma srcs_rev_push : forall o hist url,
-  srcs_rev (Some (mk_key url)) (hist ++ [fetch_epoch o url]) = mk_key url :: srcs_rev o hist.
+  srcs_rev (Some (key_of o url)) (hist ++ [fetch_epoch o url]) = key_of o url :: srcs_rev o hist.
 Proof.
   intros. unfold srcs_rev. rewrite map_app, rev_app_distr. reflexivity.
 Qed.
@@ -193,10 +193,10 @@ Section Total.
 
   Lemma fis_ok_good : forall st o sid url st1 errs sm,
     good st -> fetch_import_source strict fs st o sid url = FMok st1 errs sm ->
-    good st1 /\ In (mk_key url) K.
+    good st1 /\ In (key_of o url) K.
   Proof.
     intros st o sid url st1 errs sm Hg E. destruct (fis_ok _ _ _ _ _ _ _ _ _ E) as (Hget & _ & Hl).
-    assert (Hk : In (mk_key url) K).
+    assert (Hk : In (key_of o url) K).
     { destruct Hl as [Hl|(Hl & Hf & _)].
       - destruct Hl as [Hl _]. apply Hg. unfold lib_keys. rewrite <- Hl. eapply lib_get_in. exact Hget.
       - apply HfsK. apply fs_get_in. rewrite Hf. discriminate. }
@@ -206,9 +206,9 @@ Section Total.
   Qed.
 
   Lemma hinv_push : forall st o hist url,
-    hinv o hist -> In (mk_key url) K ->
+    hinv o hist -> In (key_of o url) K ->
     check_cycle st m0 hist (fetch_epoch o url) = false ->
-    hinv (Some (mk_key url)) (hist ++ [fetch_epoch o url]).
+    hinv (Some (key_of o url)) (hist ++ [fetch_epoch o url]).
   Proof.
     intros st o hist url [Hs Hi] Hk Hc. unfold hinv. rewrite srcs_rev_push. split.
     - cbn [sparse]. split; [|exact Hs]. unfold srcs_rev. intros Hin. apply in_rev in Hin.
@@ -267,7 +267,7 @@ Section Total.
         { rewrite app_length. cbn [length]. lia. }
         destruct (IH st1 _ _ sc Hg1 Hh' Hf') as (b & st2 & E2 & Hg2). rewrite E2.
         destruct b; [|eauto].
-        destruct (all_ok_inv good (fun st k => fetch_comp f strict fs m0 st (Some (mk_key url))
+        destruct (all_ok_inv good (fun st k => fetch_comp f strict fs m0 st (Some (key_of o url))
                                                           (hist ++ [fetch_epoch o url]) k) (ckids sc)) with (x := st2)
           as (b3 & st3 & E3 & Hg3); [|exact Hg2|].
         { intros k _ x Hx. apply IH; assumption. }
@@ -395,7 +395,7 @@ Proof.
     destruct (existsb (related_units ref) errs); [inversion E; subst; apply ext_add_issue|].
     destruct (check_cycle st1 m0 hist (fetch_epoch o url)); [inversion E; subst; apply ext_add_issue|].
     destruct (find_units (m_units sm) ref) as [su|]; [|inversion E; subst; apply ext_add_issue].
-    destruct (fetch_units f strict fs m0 st1 (Some (mk_key url)) (hist ++ [fetch_epoch o url]) su)
+    destruct (fetch_units f strict fs m0 st1 (Some (key_of o url)) (hist ++ [fetch_epoch o url]) su)
       as [[b2 st2]| |] eqn:E2; try discriminate.
     pose proof (IH _ _ _ _ _ _ _ _ _ E2) as H2. destruct b2.
     + eapply ext_trans; [exact H2|]. eapply all_ok_ext; [|exact E].
@@ -420,11 +420,11 @@ Proof.
     destruct (existsb (related_comp (find_comp (m_comps sm) ref)) errs); [inversion E; subst; apply ext_add_issue|].
     destruct (check_cycle st1 m0 hist (fetch_epoch o url)); [inversion E; subst; apply ext_add_issue|].
     destruct (find_comp (m_comps sm) ref) as [sc|]; [|inversion E; subst; apply ext_add_issue].
-    destruct (fetch_comp f strict fs m0 st1 (Some (mk_key url)) (hist ++ [fetch_epoch o url]) sc)
+    destruct (fetch_comp f strict fs m0 st1 (Some (key_of o url)) (hist ++ [fetch_epoch o url]) sc)
       as [[b2 st2]| |] eqn:E2; try discriminate.
     pose proof (IH _ _ _ _ _ _ _ _ _ E2) as H2. destruct b2; [|inversion E; subst; exact H2].
     eapply ext_trans; [exact H2|].
-    destruct (all_ok (fun st k => fetch_comp f strict fs m0 st (Some (mk_key url)) (hist ++ [fetch_epoch o url]) k)
+    destruct (all_ok (fun st k => fetch_comp f strict fs m0 st (Some (key_of o url)) (hist ++ [fetch_epoch o url]) k)
                      (ckids sc) st2) as [[b3 st3]| |] eqn:E3; try discriminate.
     assert (H3 : ext st2 st3 b3).
     { eapply all_ok_ext; [|exact E3]. intros k x b' x' _ Es. cbv beta in Es. eapply IH. exact Es. }
@@ -521,22 +521,22 @@ Proof. intros fs st st' E H k m G. rewrite E in G. apply H, G. Qed.
 
 Lemma fis_ok_cons : forall strict fs st o sid url st1 errs sm,
   cons fs st -> fetch_import_source strict fs st o sid url = FMok st1 errs sm ->
-  cons fs st1 /\ mono st st1 /\ fs_model fs (mk_key url) = Some sm /\
-  lib_get (lib st1) (mk_key url) = Some sm /\ issues_rev st1 = issues_rev st /\
-  (errs = [] \/ fs_get fs (mk_key url) = Parsed errs sm).
+  cons fs st1 /\ mono st st1 /\ fs_model fs (key_of o url) = Some sm /\
+  lib_get (lib st1) (key_of o url) = Some sm /\ issues_rev st1 = issues_rev st /\
+  (errs = [] \/ fs_get fs (key_of o url) = Parsed errs sm).
 Proof.
   intros strict fs st o sid url st1 errs sm Hc E.
   destruct (fis_ok _ _ _ _ _ _ _ _ _ E) as (Hget & Hi & Hl).
   destruct Hl as [[Hl He]|(Hl & Hf & Hn)].
   - assert (Hc1 : cons fs st1) by (eapply cons_same_lib; eauto).
     repeat split; auto using mono_same_lib.
-  - assert (Hm : fs_model fs (mk_key url) = Some sm) by (unfold fs_model; rewrite Hf; reflexivity).
+  - assert (Hm : fs_model fs (key_of o url) = Some sm) by (unfold fs_model; rewrite Hf; reflexivity).
     assert (Hc1 : cons fs st1).
-    { intros k m G. rewrite Hl in G. cbn [lib_get] in G. destruct (String.eqb (mk_key url) k) eqn:Ek.
+    { intros k m G. rewrite Hl in G. cbn [lib_get] in G. destruct (String.eqb (key_of o url) k) eqn:Ek.
       - apply String.eqb_eq in Ek. subst k. inversion G; subst. exact Hm.
       - apply Hc, G. }
     assert (Hmo : mono st st1).
-    { intros k m G. rewrite Hl. cbn [lib_get]. destruct (String.eqb (mk_key url) k) eqn:Ek; [|exact G].
+    { intros k m G. rewrite Hl. cbn [lib_get]. destruct (String.eqb (key_of o url) k) eqn:Ek; [|exact G].
       apply String.eqb_eq in Ek. subst k. rewrite Hn in G. discriminate. }
     repeat split; auto.
 Qed.
@@ -617,14 +617,14 @@ Section Spec.
       destruct (fis_ok_cons _ _ _ _ _ _ _ _ _ Hc Efis) as (Hc1 & Hm1 & Hfm & Hget & _ & _).
       assert (Hh1 : hist_ok st1 hist) by (eapply hist_ok_mono; eauto).
       assert (Ho1 : owner_ok st1 o) by (eapply owner_ok_mono; eauto).
-      rewrite (check_cycle_cycs fs st1 m0 hist (fetch_epoch o url) (mk_key url) sm Hc1 Hh1 eq_refl Hget) in E.
+      rewrite (check_cycle_cycs fs st1 m0 hist (fetch_epoch o url) (key_of o url) sm Hc1 Hh1 eq_refl Hget) in E.
       destruct (cycs fs m0 hist (fetch_epoch o url)) eqn:Ecy.
       { inversion E; subst. repeat split; auto; [discriminate|].
         intros _ HF. inversion HF; subst. congruence. }
       destruct (find_units (m_units sm) ref) as [su|] eqn:Efu.
       2:{ inversion E; subst. repeat split; auto; [discriminate|].
           intros _ HF. inversion HF; subst. congruence. }
-      set (o' := Some (mk_key url)) in *. set (hist' := hist ++ [fetch_epoch o url]) in *.
+      set (o' := Some (key_of o url)) in *. set (hist' := hist ++ [fetch_epoch o url]) in *.
       assert (Hinv1 : sinv hist' o' st1).
       { repeat split; auto.
         - intros e He. apply in_app_or in He. destruct He as [He|[<-|[]]]; [apply Hh1, He | exact Ho1].
@@ -726,14 +726,14 @@ Section Spec.
       assert (Hh1 : hist_ok st1 hist) by (eapply hist_ok_mono; eauto).
       assert (Ho1 : owner_ok st1 o) by (eapply owner_ok_mono; eauto).
       assert (Hinv1o : sinv hist o st1) by (repeat split; auto).
-      rewrite (check_cycle_cycs fs st1 m0 hist (fetch_epoch o url) (mk_key url) sm Hc1 Hh1 eq_refl Hget) in E.
+      rewrite (check_cycle_cycs fs st1 m0 hist (fetch_epoch o url) (key_of o url) sm Hc1 Hh1 eq_refl Hget) in E.
       destruct (cycs fs m0 hist (fetch_epoch o url)) eqn:Ecy.
       { inversion E; subst. repeat split; auto; try apply Hinv1o; [discriminate|].
         intros _ HF. inversion HF; subst; [discriminate|congruence]. }
       destruct (find_comp (m_comps sm) ref) as [sc|] eqn:Efc.
       2:{ inversion E; subst. repeat split; auto; try apply Hinv1o; [discriminate|].
           intros _ HF. inversion HF; subst; [discriminate|congruence]. }
-      set (o' := Some (mk_key url)) in *. set (hist' := hist ++ [fetch_epoch o url]) in *.
+      set (o' := Some (key_of o url)) in *. set (hist' := hist ++ [fetch_epoch o url]) in *.
       assert (Hinv1 : sinv hist' o' st1).
       { repeat split; auto.
         - intros e He. apply in_app_or in He. destruct He as [He|[<-|[]]]; [apply Hh1, He | exact Ho1].
@@ -944,14 +944,14 @@ Section CodeToSpec.
   Variable m0 : model.
   Hypothesis Hsh : Shallow fs.
 
-  Lemma only_std_RU : forall cm cu, is_local cu -> only_std cu -> RU fs cm cu.
+  Lemma only_std_RU : forall o cm cu, is_local cu -> only_std cu -> RU fs o cm cu.
   Proof.
-    intros cm [n refs|] Hl Ho; [|destruct Hl]. apply RU_local.
+    intros o cm [n refs|] Hl Ho; [|destruct Hl]. apply RU_local.
     - intros r Hr Hs. rewrite (Ho r Hr) in Hs. discriminate.
     - intros r cu Hr Hs. rewrite (Ho r Hr) in Hs. discriminate.
   Qed.
 
-  Lemma FU_RU : forall o hist u, FU fs m0 o hist u -> forall cm, ~ is_local u -> RU fs cm u.
+  Lemma FU_RU : forall o hist u, FU fs m0 o hist u -> forall cm, ~ is_local u -> RU fs o cm u.
   Proof.
     intros o hist u HF. induction HF as [o hist n refs | o hist n sid url ref sm su Hfm Hcy Hfu HFsu IHsu Hex Hall IHall];
       intros cm Hnl.
@@ -969,34 +969,34 @@ Section CodeToSpec.
   Qed.
 
   (* units used by a component, given what fetchComponent checked about them *)
-  Lemma used_RU : forall sm k c, fs_model fs k = Some sm -> In c (all_comps sm) ->
+  Lemma used_RU : forall o sm k c, fs_model fs k = Some sm -> In c (all_comps sm) ->
     (forall un su, In un (cused c) -> is_std un = false -> find_units (m_units sm) un = Some su ->
-                   exists o hist, FU fs m0 o hist su) ->
-    forall un su, In un (cused c) -> is_std un = false -> find_units (m_units sm) un = Some su -> RU fs sm su.
+                   exists hist, FU fs m0 o hist su) ->
+    forall un su, In un (cused c) -> is_std un = false -> find_units (m_units sm) un = Some su -> RU fs o sm su.
   Proof.
-    intros sm k c Hfm Hc HF un su Hun Hs Esu. destruct (Hsh _ _ Hfm) as (_ & S2 & _).
+    intros o sm k c Hfm Hc HF un su Hun Hs Esu. destruct (Hsh _ _ Hfm) as (_ & S2 & _).
     destruct su as [ns rs|ns ss us rs].
     - apply only_std_RU; [exact I|]. eapply S2; eauto. exact I.
-    - destruct (HF _ _ Hun Hs Esu) as (o & hist & H). eapply FU_RU; eauto.
+    - destruct (HF _ _ Hun Hs Esu) as (hist & H). eapply FU_RU; eauto.
   Qed.
 
-  Lemma child_used : forall sm k c, fs_model fs k = Some sm -> In c (child_comps sm) ->
+  Lemma child_used : forall o sm k c, fs_model fs k = Some sm -> In c (child_comps sm) ->
     (forall un, In un (cused c) -> is_std un = false -> find_units (m_units sm) un <> None) /\
-    (forall un su, In un (cused c) -> is_std un = false -> find_units (m_units sm) un = Some su -> RU fs sm su).
+    (forall un su, In un (cused c) -> is_std un = false -> find_units (m_units sm) un = Some su -> RU fs o sm su).
   Proof.
-    intros sm k c Hfm Hc. destruct (Hsh _ _ Hfm) as (_ & _ & S3 & _). split.
+    intros o sm k c Hfm Hc. destruct (Hsh _ _ Hfm) as (_ & _ & S3 & _). split.
     - intros un Hun Hs. destruct (S3 c un Hc Hun Hs) as (su & E & _). congruence.
     - intros un su Hun Hs E. destruct (S3 c un Hc Hun Hs) as (su' & E' & Hl & Ho).
       assert (su' = su) by congruence. subst su'. apply only_std_RU; assumption.
   Qed.
 
   (* an encapsulated child without imports below it is satisfiable (S3 for its units, and so on downwards) *)
-  Lemma noimp_RC : forall sm k, fs_model fs k = Some sm ->
-    forall c, requires_imports c = false -> In c (child_comps sm) -> RC fs sm c.
+  Lemma noimp_RC : forall o sm k, fs_model fs k = Some sm ->
+    forall c, requires_imports c = false -> In c (child_comps sm) -> RC fs o sm c.
   Proof.
-    intros sm k Hfm c. induction c as [n i used kids IHk] using comp_ind'. intros Hr Hc.
+    intros o sm k Hfm c. induction c as [n i used kids IHk] using comp_ind'. intros Hr Hc.
     destruct i as [p|]; [cbn in Hr; discriminate|].
-    destruct (child_used sm k _ Hfm Hc) as (Hex & Hall).
+    destruct (child_used o sm k _ Hfm Hc) as (Hex & Hall).
     apply RC_local; auto.
     intros kd Hkd. rewrite Forall_forall in IHk. apply IHk; auto.
     - cbn [requires_imports] in Hr. clear -Hr Hkd. induction kids as [|x r IH]; [destruct Hkd|].
@@ -1004,11 +1004,29 @@ Section CodeToSpec.
     - eapply child_comps_kids; eauto.
   Qed.
 
+  (* the import target [sc] of a component imported by an entity of [o], given what fetchComponent found out *)
+  Lemma target_RC : forall o' sm k sc hist,
+    fs_model fs k = Some sm -> In sc (all_comps sm) ->
+    RCimport fs o' sc ->
+    (forall kd, In kd (ckids sc) -> RC fs o' sm kd) ->
+    (forall un, In un (cused sc) -> is_std un = false -> find_units (m_units sm) un <> None) ->
+    (forall un su, In un (cused sc) -> is_std un = false -> find_units (m_units sm) un = Some su -> FU fs m0 o' hist su) ->
+    RC fs o' sm sc.
+  Proof.
+    intros o' sm k sc hist Hfm Hin Himp Hk Hex Hall.
+    assert (Hu_all : forall un su, In un (cused sc) -> is_std un = false ->
+                                   find_units (m_units sm) un = Some su -> RU fs o' sm su).
+    { eapply used_RU; eauto. }
+    destruct sc as [n' [[[sid' url'] ref']|] used' kids'].
+    - cbn [RCimport] in Himp. destruct Himp as (sm' & sc' & H1 & H2 & H3). eapply RC_imp; eauto.
+    - apply RC_local; auto.
+  Qed.
+
   (* what a successful fetchComponent says about a component [c] of a library model [cm]: its import is
      satisfiable, and if [c] is an encapsulated child then all of it is *)
   Lemma FC_RC : forall o hist c, FC fs m0 o hist c ->
     forall cm k, fs_model fs k = Some cm -> In c (all_comps cm) ->
-                 RCimport fs c /\ (In c (child_comps cm) -> RC fs cm c).
+                 RCimport fs o c /\ (In c (child_comps cm) -> RC fs o cm c).
   Proof.
     intros o hist c HF.
     induction HF as [o hist c Hreq
@@ -1019,27 +1037,19 @@ Section CodeToSpec.
       + destruct c as [n [p|] u kd]; [cbn in Hreq; discriminate|exact I].
       + intros Hch. eapply noimp_RC; eauto.
     - split; [exact I|]. intros Hch.
-      destruct (child_used cm k _ Hcm Hch) as (Hex & Hall).
+      destruct (child_used o cm k _ Hcm Hch) as (Hex & Hall).
       apply RC_local; auto.
       intros kd Hkd. destruct (kids_child_comps cm _ kd Hin Hkd) as (Hkc & Hka).
       apply (IHkids kd Hkd cm k Hcm Hka). exact Hkc.
     - assert (Hsc_in : In sc (all_comps sm)) by (eapply find_comp_sub; exact Hfc).
-      assert (HRC : RC fs sm sc).
-      { assert (Hu_ex : forall un, In un (cused sc) -> is_std un = false -> find_units (m_units sm) un <> None)
-          by exact Hex.
-        assert (Hu_all : forall un su, In un (cused sc) -> is_std un = false ->
-                                       find_units (m_units sm) un = Some su -> RU fs sm su).
-        { eapply used_RU; eauto. }
-        assert (Hk_all : forall kd, In kd (ckids sc) -> RC fs sm kd).
-        { intros kd Hkd. destruct (kids_child_comps sm _ kd Hsc_in Hkd) as (Hkc & Hka).
+      assert (HRC : RC fs (Some (key_of o url)) sm sc).
+      { eapply target_RC; eauto.
+        - apply (IHsc sm _ Hfm Hsc_in).
+        - intros kd Hkd. destruct (kids_child_comps sm _ kd Hsc_in Hkd) as (Hkc & Hka).
           apply (IHk kd Hkd sm _ Hfm Hka). exact Hkc. }
-        destruct sc as [n' [[[sid' url'] ref']|] used' kids'].
-        - destruct (IHsc sm _ Hfm Hsc_in) as (Himp & _). cbn [RCimport] in Himp.
-          destruct Himp as (sm' & sc' & H1 & H2 & H3). eapply RC_imp; eauto.
-        - apply RC_local; auto. }
       split.
       + cbn [RCimport]. exists sm, sc. auto.
-      + intros Hch. destruct (child_used cm k _ Hcm Hch) as (Hex' & Hall').
+      + intros Hch. destruct (child_used o cm k _ Hcm Hch) as (Hex' & Hall').
         destruct (Hsh _ _ Hcm) as (_ & _ & _ & S4).
         assert (Hnk : kids = []) by (apply (S4 _ Hch); cbn; discriminate).
         subst kids. eapply RC_imp; eauto. intros kd [].
@@ -1060,16 +1070,10 @@ Section CodeToSpec.
       + exact I.
       + assert (Hsc_in : In sc (all_comps sm)) by (eapply find_comp_sub; exact Hfc).
         cbn [RCimport]. exists sm, sc. split; [exact Hfm|]. split; [exact Hfc|].
-        assert (Hu_all : forall un su, In un (cused sc) -> is_std un = false ->
-                                       find_units (m_units sm) un = Some su -> RU fs sm su).
-        { eapply used_RU; eauto. }
-        assert (Hk_all : forall kd, In kd (ckids sc) -> RC fs sm kd).
-        { intros kd Hkd. destruct (kids_child_comps sm _ kd Hsc_in Hkd) as (Hkc & Hka).
-          apply (FC_RC _ _ _ (HFk kd Hkd) sm _ Hfm Hka). exact Hkc. }
-        destruct sc as [n' [[[sid' url'] ref']|] used' kids'].
-        * destruct (FC_RC _ _ _ HFsc sm _ Hfm Hsc_in) as (Himp & _). cbn [RCimport] in Himp.
-          destruct Himp as (sm' & sc' & H1 & H2 & H3). eapply RC_imp; eauto.
-        * apply RC_local; auto.
+        eapply target_RC; eauto.
+        * apply (FC_RC _ _ _ HFsc sm _ Hfm Hsc_in).
+        * intros kd Hkd. destruct (kids_child_comps sm _ kd Hsc_in Hkd) as (Hkc & Hka).
+          apply (FC_RC _ _ _ (HFk kd Hkd) sm _ Hfm Hka). exact Hkc.
   Qed.
 End CodeToSpec.
 
@@ -1103,21 +1107,23 @@ Section SpecToCode.
   Variable fs : fsys.
   Variable m0 : model.
   Variable rank : string -> nat.
-  Hypothesis Hrank : forall k sm url, fs_model fs k = Some sm -> In url (import_urls sm) -> rank (mk_key url) < rank k.
+  Hypothesis Hrank : forall k sm url, fs_model fs k = Some sm -> In url (import_urls sm) ->
+                                      rank (key_of (Some k) url) < rank k.
   Hypothesis Hnt : NoTwin fs m0.
+  Hypothesis Hkeys : KeysOK fs.
 
   (* the history holds files of strictly larger rank than the current one (or the origin model) *)
   Definition below (o : owner) (hist : list epoch) : Prop :=
     (forall e, In e hist -> e_srcm e = None \/ e_src e <> origin_ref) /\
     match o with
     | None => hist = []
-    | Some k => (exists url, k = mk_key url) /\ forall e, In e hist -> e_src e = origin_ref \/ rank k < rank (e_src e)
+    | Some k => k <> origin_ref /\ forall e, In e hist -> e_src e = origin_ref \/ rank k < rank (e_src e)
     end.
 
-  Definition lower (o : owner) (url : string) : Prop := forall k, o = Some k -> rank (mk_key url) < rank k.
+  Definition lower (o : owner) (url : string) : Prop := forall k, o = Some k -> rank (key_of o url) < rank k.
 
   Lemma cycs_false : forall o hist url sm,
-    below o hist -> lower o url -> fs_model fs (mk_key url) = Some sm ->
+    below o hist -> lower o url -> fs_model fs (key_of o url) = Some sm ->
     cycs fs m0 hist (fetch_epoch o url) = false.
   Proof.
     intros o hist url sm (Hwf & Hb) Hlow Hfm. unfold cycs. apply existsb_false. intros e He.
@@ -1126,21 +1132,21 @@ Section SpecToCode.
     destruct Hb as (_ & Hb). specialize (Hlow k eq_refl).
     apply orb_false_iff. split.
     - apply String.eqb_neq. intros Heq. destruct (Hb e He) as [Ho|Hr].
-      + rewrite Ho in Heq. exact (mk_key_not_origin _ Heq).
+      + rewrite Ho in Heq. exact (Hkeys _ _ Hfm Heq).
       + rewrite <- Heq in Hr. lia.
     - destruct (String.eqb (e_src e) origin_ref) eqn:Eo; [|reflexivity]. cbn [andb].
       apply String.eqb_eq in Eo. destruct (Hwf e He) as [Hn|Hn]; [|contradiction].
       rewrite Hn. cbn [fcontent]. apply (Hnt _ _ Hfm).
   Qed.
 
-  Lemma below_push : forall o hist url, below o hist -> lower o url ->
-    below (Some (mk_key url)) (hist ++ [fetch_epoch o url]).
+  Lemma below_push : forall o hist url sm, below o hist -> lower o url -> fs_model fs (key_of o url) = Some sm ->
+    below (Some (key_of o url)) (hist ++ [fetch_epoch o url]).
   Proof.
-    intros o hist url (Hwf & Hb) Hlow. split.
+    intros o hist url sm (Hwf & Hb) Hlow Hfm. split.
     - intros e He. apply in_app_or in He. destruct He as [He|[<-|[]]]; [apply Hwf, He|].
       cbn [fetch_epoch e_srcm e_src]. destruct o as [k|]; [|left; reflexivity].
-      right. destruct Hb as ((u & ->) & _). cbn [model_url]. apply mk_key_not_origin.
-    - split; [eexists; reflexivity|]. intros e He. apply in_app_or in He. destruct He as [He|[<-|[]]].
+      right. destruct Hb as (Hk & _). cbn [model_url]. exact Hk.
+    - split; [exact (Hkeys _ _ Hfm)|]. intros e He. apply in_app_or in He. destruct He as [He|[<-|[]]].
       + destruct o as [k|]; [|subst hist; destruct He]. destruct Hb as (_ & Hb). specialize (Hlow k eq_refl).
         destruct (Hb e He) as [Ho|Hr]; [left; exact Ho|right; lia].
       + cbn [fetch_epoch e_src]. destruct o as [k|]; [|left; reflexivity]. right. cbn [model_url]. apply Hlow. reflexivity.
@@ -1164,50 +1170,50 @@ Section SpecToCode.
     unfold import_urls. apply in_or_app. right. apply in_flat_map. eexists. split; [exact Hin|]. cbn. left. reflexivity.
   Qed.
 
-  Lemma RU_FU : forall cm u, RU fs cm u ->
-    (forall o hist, ctxU o hist cm u -> FU fs m0 o hist u) /\
+  Lemma RU_FU : forall o cm u, RU fs o cm u ->
+    (forall hist, ctxU o hist cm u -> FU fs m0 o hist u) /\
     (forall r cu, In r (refs_of u) -> is_std r = false -> find_units (m_units cm) r = Some cu ->
-                  forall o hist, ctxU o hist cm cu -> FU fs m0 o hist cu).
+                  forall hist, ctxU o hist cm cu -> FU fs m0 o hist cu).
   Proof.
-    intros cm u HR.
-    induction HR as [cm n sid url ref sm su Hfm Hfu HRsu IHsu | cm n refs Hex Hall IHall].
+    intros o cm u HR.
+    induction HR as [o cm n sid url ref sm su Hfm Hfu HRsu IHsu | o cm n refs Hex Hall IHall].
     - split; [|intros r cu []].
-      intros o hist Hctx. pose proof (lower_units _ _ _ _ _ _ _ Hctx) as Hlow.
+      intros hist Hctx. pose proof (lower_units _ _ _ _ _ _ _ Hctx) as Hlow.
       destruct Hctx as (Hc & Hin & Hb). destruct IHsu as (IH1 & IH2).
       assert (Hctx' : forall x, In x (m_units sm) ->
-                                ctxU (Some (mk_key url)) (hist ++ [fetch_epoch o url]) sm x).
-      { intros x Hx. split; [exact Hfm|]. split; [exact Hx|]. apply below_push; assumption. }
+                                ctxU (Some (key_of o url)) (hist ++ [fetch_epoch o url]) sm x).
+      { intros x Hx. split; [exact Hfm|]. split; [exact Hx|]. eapply below_push; eauto. }
       apply FU_imp with (sm := sm) (su := su); [exact Hfm| |exact Hfu| | |].
       + eapply cycs_false; eauto.
       + apply IH1. apply Hctx'. eapply find_units_In; eauto.
       + inversion HRsu; subst; cbn [refs_of]; [intros r []|]. assumption.
       + intros r cu Hr Hs E. eapply IH2; eauto. apply Hctx'. eapply find_units_In; eauto.
     - split; [intros; apply FU_local|].
-      intros r cu Hr Hs E o hist Hctx. cbn [refs_of] in Hr. destruct (IHall r cu Hr Hs E) as (IH1 & _). auto.
+      intros r cu Hr Hs E hist Hctx. cbn [refs_of] in Hr. destruct (IHall r cu Hr Hs E) as (IH1 & _). auto.
   Qed.
 
-  Lemma RC_FC : forall cm c, RC fs cm c ->
-    (forall o hist, ctxC o hist cm c -> FC fs m0 o hist c) /\
-    (forall k, In k (ckids c) -> forall o hist, ctxC o hist cm k -> FC fs m0 o hist k) /\
+  Lemma RC_FC : forall o cm c, RC fs o cm c ->
+    (forall hist, ctxC o hist cm c -> FC fs m0 o hist c) /\
+    (forall k, In k (ckids c) -> forall hist, ctxC o hist cm k -> FC fs m0 o hist k) /\
     (forall un, In un (cused c) -> is_std un = false -> find_units (m_units cm) un <> None) /\
     (forall un su, In un (cused c) -> is_std un = false -> find_units (m_units cm) un = Some su ->
-                   forall o hist, ctxU o hist cm su -> FU fs m0 o hist su).
+                   forall hist, ctxU o hist cm su -> FU fs m0 o hist su).
   Proof.
-    intros cm c HR.
-    induction HR as [cm n used kids Hex Hall Hkids IHkids
-                    | cm n sid url ref used kids sm sc Hfm Hfc HRsc IHsc Hex Hall Hkids IHkids].
-    - assert (P2 : forall k, In k kids -> forall o hist, ctxC o hist cm k -> FC fs m0 o hist k).
+    intros o cm c HR.
+    induction HR as [o cm n used kids Hex Hall Hkids IHkids
+                    | o cm n sid url ref used kids sm sc Hfm Hfc HRsc IHsc Hex Hall Hkids IHkids].
+    - assert (P2 : forall k, In k kids -> forall hist, ctxC o hist cm k -> FC fs m0 o hist k).
       { intros k Hk. destruct (IHkids k Hk) as (IH1 & _). exact IH1. }
       split; [|split; [exact P2|split; [exact Hex|]]].
-      + intros o hist (Hc & Hin & Hb). apply FC_local. intros k Hk. apply P2; [exact Hk|].
+      + intros hist (Hc & Hin & Hb). apply FC_local. intros k Hk. apply P2; [exact Hk|].
         split; [exact Hc|]. split; [|exact Hb]. eapply kids_child_comps; eauto.
-      + intros un su Hun Hs E. apply (proj1 (RU_FU _ _ (Hall un su Hun Hs E))).
-    - assert (P2 : forall k, In k kids -> forall o hist, ctxC o hist cm k -> FC fs m0 o hist k).
+      + intros un su Hun Hs E. apply (proj1 (RU_FU _ _ _ (Hall un su Hun Hs E))).
+    - assert (P2 : forall k, In k kids -> forall hist, ctxC o hist cm k -> FC fs m0 o hist k).
       { intros k Hk. destruct (IHkids k Hk) as (IH1 & _). exact IH1. }
       split; [|split; [exact P2|split; [exact Hex|]]].
-      + intros o hist Hctx. pose proof (lower_comp _ _ _ _ _ _ _ _ _ Hctx) as Hlow.
+      + intros hist Hctx. pose proof (lower_comp _ _ _ _ _ _ _ _ _ Hctx) as Hlow.
         destruct Hctx as (Hc & Hin & Hb). destruct IHsc as (IH1 & IH2 & IH3 & IH4).
-        assert (Hb' : below (Some (mk_key url)) (hist ++ [fetch_epoch o url])) by (apply below_push; assumption).
+        assert (Hb' : below (Some (key_of o url)) (hist ++ [fetch_epoch o url])) by (eapply below_push; eauto).
         assert (Hsc_in : In sc (all_comps sm)) by (eapply find_comp_sub; exact Hfc).
         apply FC_imp with (sm := sm) (sc := sc); [exact Hfm| |exact Hfc| | |exact IH3|].
         * eapply cycs_false; eauto.
@@ -1216,7 +1222,7 @@ Section SpecToCode.
           eapply kids_child_comps; eauto.
         * intros un su Hun Hs E. eapply IH4; eauto. split; [exact Hfm|]. split; [|exact Hb'].
           eapply find_units_In; eauto.
-      + intros un su Hun Hs E. apply (proj1 (RU_FU _ _ (Hall un su Hun Hs E))).
+      + intros un su Hun Hs E. apply (proj1 (RU_FU _ _ _ (Hall un su Hun Hs E))).
   Qed.
 
   Lemma below_start : below None [].
@@ -1227,14 +1233,14 @@ Section SpecToCode.
   Lemma resolvable_code_resolvable : Resolvable fs m0 -> CodeResolvable fs m0.
   Proof.
     intros (Hu & Hc). split.
-    - intros u Hin. apply (proj1 (RU_FU _ _ (Hu u Hin))). split; [reflexivity|]. split; [|apply below_start].
+    - intros u Hin. apply (proj1 (RU_FU _ _ _ (Hu u Hin))). split; [reflexivity|]. split; [|apply below_start].
       unfold imported_units in Hin. apply filter_In in Hin. apply Hin.
     - intros c Hin. specialize (Hc c Hin). pose proof (imported_comps_imp _ _ Hin) as Himp.
       destruct c as [n [[[sid url] ref]|] used kids]; [|exfalso; apply Himp; reflexivity].
       cbn [RCimport] in Hc. destruct Hc as (sm & sc & Hfm & Hfc & HRsc).
-      destruct (RC_FC _ _ HRsc) as (IH1 & IH2 & IH3 & IH4).
+      destruct (RC_FC _ _ _ HRsc) as (IH1 & IH2 & IH3 & IH4).
       assert (Hlow : lower None url) by (intros k Habs; discriminate).
-      assert (Hb' : below (Some (mk_key url)) ([] ++ [fetch_epoch None url])) by (apply below_push; [apply below_start|exact Hlow]).
+      assert (Hb' : below (Some (key_of None url)) ([] ++ [fetch_epoch None url])) by (eapply below_push; eauto using below_start).
       assert (Hsc_in : In sc (all_comps sm)) by (eapply find_comp_sub; exact Hfc).
       apply FC_imp with (sm := sm) (sc := sc); [exact Hfm| |exact Hfc| | |exact IH3|].
       + eapply cycs_false; eauto. apply below_start.
@@ -1263,11 +1269,11 @@ Qed.
 
 (* the property's form, with the hypotheses the code needs spelled out *)
 Lemma resolve_true_iff_partial : forall fs strict st m0 fuel,
-  NoErrs fs -> Shallow fs -> AcyclicFiles fs -> NoTwin fs m0 ->
+  NoErrs fs -> Shallow fs -> AcyclicFiles fs -> NoTwin fs m0 -> KeysOK fs ->
   cons fs st -> fuel_bound fs st <= fuel ->
   exists b st', resolve_imports fuel strict fs st m0 = Ok (b, st') /\ (b = true <-> Resolvable fs m0).
 Proof.
-  intros fs strict st m0 fuel Hne Hsh (rank & Hrank) Hnt Hc Hfuel.
+  intros fs strict st m0 fuel Hne Hsh (rank & Hrank) Hnt Hk Hc Hfuel.
   destruct (resolve_true_iff_code fs strict st m0 fuel Hne Hc Hfuel) as (b & st' & E & Hiff).
   exists b, st'. split; [exact E|]. rewrite Hiff. split.
   - apply code_resolvable_resolvable. exact Hsh.
@@ -1285,12 +1291,12 @@ Proof. intros. reflexivity. Qed.
 (* A failure leaves the importer usable: once the file system is repaired (fs'), a resolution after
    removeAllModels -- from ANY importer state st, whatever faults it has seen -- succeeds *)
 Lemma retry_after_repair : forall fs' strict st m0 fuel,
-  NoErrs fs' -> Shallow fs' -> AcyclicFiles fs' -> NoTwin fs' m0 -> Resolvable fs' m0 ->
+  NoErrs fs' -> Shallow fs' -> AcyclicFiles fs' -> NoTwin fs' m0 -> KeysOK fs' -> Resolvable fs' m0 ->
   fuel_bound fs' empty_state <= fuel ->
   exists st', resolve_imports fuel strict fs' (remove_all_models st) m0 = Ok (true, st').
 Proof.
-  intros fs' strict st m0 fuel Hne Hsh Hac Hnt Hres Hfuel. rewrite resolve_after_clear.
-  destruct (resolve_true_iff_partial fs' strict empty_state m0 fuel Hne Hsh Hac Hnt
+  intros fs' strict st m0 fuel Hne Hsh Hac Hnt Hk Hres Hfuel. rewrite resolve_after_clear.
+  destruct (resolve_true_iff_partial fs' strict empty_state m0 fuel Hne Hsh Hac Hnt Hk
               (cons_empty_lib fs' empty_state eq_refl) Hfuel) as (b & st' & E & Hiff).
   exists st'. rewrite E. f_equal. f_equal. apply Hiff. exact Hres.
 Qed.
@@ -1354,26 +1360,28 @@ Definition fa_f1 := mdl "m_f1" [ULocal "u" ["v"]; ULocal "v" ["w"]; UImp "w" 0 "
 Definition fa_fs_missing : fsys := [(mk_key "f1", Parsed [] fa_f1)].
 Definition fa_fs_full : fsys := [(mk_key "f1", Parsed [] fa_f1); (mk_key "f2", Parsed [] (mdl "m_f2" [ULocal "w" []] []))].
 
+Definition o_f1 : owner := Some (key_of None "f1").
+
 Lemma fa_not_resolvable : ~ Resolvable fa_fs_missing fa_m0.
 Proof.
   intros (Hu & _). specialize (Hu _ (or_introl eq_refl)).
-  inversion Hu as [cm n sid url ref sm su Hfm Hfu HR|]; subst. vm_compute in Hfm. inversion Hfm; subst.
+  inversion Hu as [o cm n sid url ref sm su Hfm Hfu HR|]; subst. vm_compute in Hfm. inversion Hfm; subst.
   vm_compute in Hfu. inversion Hfu; subst.
-  inversion HR as [|cm n refs Hex Hall]; subst.
-  assert (Hv : RU fa_fs_missing fa_f1 (ULocal "v" ["w"])).
+  inversion HR as [|o cm n refs Hex Hall]; subst.
+  assert (Hv : RU fa_fs_missing o_f1 fa_f1 (ULocal "v" ["w"])).
   { apply (Hall "v"); [left; reflexivity|reflexivity|reflexivity]. }
-  inversion Hv as [|cm n refs Hex' Hall']; subst.
-  assert (Hw : RU fa_fs_missing fa_f1 (UImp "w" 0 "f2" "w")).
+  inversion Hv as [|o cm n refs Hex' Hall']; subst.
+  assert (Hw : RU fa_fs_missing o_f1 fa_f1 (UImp "w" 0 "f2" "w")).
   { apply (Hall' "w"); [left; reflexivity|reflexivity|reflexivity]. }
-  inversion Hw as [cm n sid url ref sm su Hfm' Hfu' HR'|]; subst. vm_compute in Hfm'. discriminate.
+  inversion Hw as [o cm n sid url ref sm su Hfm' Hfu' HR'|]; subst. vm_compute in Hfm'. discriminate.
 Qed.
 
 Lemma fa_resolvable_full : Resolvable fa_fs_full fa_m0.
 Proof.
-  assert (Hw : RU fa_fs_full fa_f1 (UImp "w" 0 "f2" "w")).
+  assert (Hw : RU fa_fs_full o_f1 fa_f1 (UImp "w" 0 "f2" "w")).
   { eapply RU_imp with (sm := mdl "m_f2" [ULocal "w" []] []) (su := ULocal "w" []); [reflexivity|reflexivity|].
     apply RU_local; [intros r []|intros r cu []]. }
-  assert (Hv : RU fa_fs_full fa_f1 (ULocal "v" ["w"])).
+  assert (Hv : RU fa_fs_full o_f1 fa_f1 (ULocal "v" ["w"])).
   { apply RU_local.
     - intros r [<-|[]] _. vm_compute. discriminate.
     - intros r cu [<-|[]] _ E. vm_compute in E. inversion E; subst. exact Hw. }
@@ -1416,15 +1424,15 @@ Definition fb_fs : fsys :=
 
 Lemma fb_resolvable : Resolvable fb_fs fb_m0.
 Proof.
-  assert (Hz : forall cm, RU fb_fs cm (UImp "w" 0 "f3" "z")).
-  { intros cm. eapply RU_imp with (sm := mdl "m_f3" [ULocal "z" []] []) (su := ULocal "z" []); [reflexivity|reflexivity|].
+  pose (m2 := mdl "m_f2" [UImp "w" 0 "f3" "z"] []). pose (m3 := mdl "m_f3" [ULocal "z" []] []).
+  assert (Hz : RU fb_fs (Some (key_of None "f2")) m2 (UImp "w" 0 "f3" "z")).
+  { eapply RU_imp with (sm := m3) (su := ULocal "z" []); [reflexivity|reflexivity|].
     apply RU_local; [intros r []|intros r cu []]. }
-  assert (Hw : forall cm n sid, RU fb_fs cm (UImp n sid "f2" "w")).
-  { intros cm n sid. eapply RU_imp with (sm := mdl "m_f2" [UImp "w" 0 "f3" "z"] []) (su := UImp "w" 0 "f3" "z");
-      [reflexivity|reflexivity|apply Hz]. }
   split.
-  - intros u [<-|[<-|[]]]; [apply Hw|].
-    eapply RU_imp with (sm := mdl "m_f1" [UImp "x" 0 "f2" "w"] []) (su := UImp "x" 0 "f2" "w"); [reflexivity|reflexivity|apply Hw].
+  - intros u [<-|[<-|[]]].
+    + eapply RU_imp with (sm := m2) (su := UImp "w" 0 "f3" "z"); [reflexivity|reflexivity|exact Hz].
+    + eapply RU_imp with (sm := mdl "m_f1" [UImp "x" 0 "f2" "w"] []) (su := UImp "x" 0 "f2" "w"); [reflexivity|reflexivity|].
+      eapply RU_imp with (sm := m2) (su := UImp "w" 0 "f3" "z"); [reflexivity|reflexivity|exact Hz].
   - intros c [].
 Qed.
 
@@ -1589,23 +1597,23 @@ Proof. intros st o sid o' sid' H. unfold has_link, set_link in *. cbn [links exi
 Lemma fis_grow : forall strict fs st o sid url,
   match fetch_import_source strict fs st o sid url with
   | FMfail st1 => grow st st1
-  | FMok st1 _ sm => grow st st1 /\ has_link st1 o sid = true /\ lib_get (lib st1) (mk_key url) = Some sm
+  | FMok st1 _ sm => grow st st1 /\ has_link st1 o sid = true /\ lib_get (lib st1) (key_of o url) = Some sm
   end.
 Proof.
   intros strict fs st o sid url. unfold fetch_import_source, linked_model.
   destruct (has_link st o sid) eqn:Hl.
-  - destruct (lib_get (lib st) (mk_key url)) eqn:Hg; [auto using grow_refl|].
-    unfold fetch_model. rewrite Hg. destruct (fs_get fs (mk_key url)); try apply grow_add_issue.
+  - destruct (lib_get (lib st) (key_of o url)) eqn:Hg; [auto using grow_refl|].
+    unfold fetch_model. rewrite Hg. destruct (fs_get fs (key_of o url)); try apply grow_add_issue.
     split; [|split; [apply has_link_set|cbn; rewrite String.eqb_refl; reflexivity]].
     split; [intros; apply has_link_set_other; assumption|].
-    intros k m' E. cbn [lib set_link lib_add lib_get]. destruct (String.eqb (mk_key url) k) eqn:Ek; [|exact E].
+    intros k m' E. cbn [lib set_link lib_add lib_get]. destruct (String.eqb (key_of o url) k) eqn:Ek; [|exact E].
     apply String.eqb_eq in Ek. subst k. congruence.
-  - unfold fetch_model. destruct (lib_get (lib st) (mk_key url)) eqn:Hg.
+  - unfold fetch_model. destruct (lib_get (lib st) (key_of o url)) eqn:Hg.
     + split; [|split; [apply has_link_set|exact Hg]]. split; [intros; apply has_link_set_other; assumption|intros k m' E; exact E].
-    + destruct (fs_get fs (mk_key url)); try apply grow_add_issue.
+    + destruct (fs_get fs (key_of o url)); try apply grow_add_issue.
       split; [|split; [apply has_link_set|cbn; rewrite String.eqb_refl; reflexivity]].
       split; [intros; apply has_link_set_other; assumption|].
-      intros k m' E. cbn [lib set_link lib_add lib_get]. destruct (String.eqb (mk_key url) k) eqn:Ek; [|exact E].
+      intros k m' E. cbn [lib set_link lib_add lib_get]. destruct (String.eqb (key_of o url) k) eqn:Ek; [|exact E].
       apply String.eqb_eq in Ek. subst k. congruence.
 Qed.
 
@@ -1651,7 +1659,7 @@ Proof.
   destruct (existsb (related_units ref) errs); [inversion E; subst; split; [apply Hadd|discriminate]|].
   destruct (check_cycle st1 m0 hist (fetch_epoch o url)); [inversion E; subst; split; [apply Hadd|discriminate]|].
   destruct (find_units (m_units sm) ref) as [su|]; [|inversion E; subst; split; [apply Hadd|discriminate]].
-  destruct (fetch_units f strict fs m0 st1 (Some (mk_key url)) (hist ++ [fetch_epoch o url]) su) as [[b2 st2]| |] eqn:E2;
+  destruct (fetch_units f strict fs m0 st1 (Some (key_of o url)) (hist ++ [fetch_epoch o url]) su) as [[b2 st2]| |] eqn:E2;
     try discriminate.
   destruct (IH _ _ _ _ _ _ _ _ _ E2) as (G2 & _).
   destruct b2; [|inversion E; subst; split; [eapply grow_trans; eauto|discriminate]].
@@ -1677,11 +1685,11 @@ Proof.
   destruct (existsb (related_comp (find_comp (m_comps sm) ref)) errs); [inversion E; subst; apply Hadd|].
   destruct (check_cycle st1 m0 hist (fetch_epoch o url)); [inversion E; subst; apply Hadd|].
   destruct (find_comp (m_comps sm) ref) as [sc|]; [|inversion E; subst; apply Hadd].
-  destruct (fetch_comp f strict fs m0 st1 (Some (mk_key url)) (hist ++ [fetch_epoch o url]) sc) as [[b2 st2]| |] eqn:E2;
+  destruct (fetch_comp f strict fs m0 st1 (Some (key_of o url)) (hist ++ [fetch_epoch o url]) sc) as [[b2 st2]| |] eqn:E2;
     try discriminate.
   pose proof (IH _ _ _ _ _ _ _ _ _ E2) as G2.
   destruct b2; [|inversion E; subst; eapply grow_trans; eauto].
-  destruct (all_ok (fun st k => fetch_comp f strict fs m0 st (Some (mk_key url)) (hist ++ [fetch_epoch o url]) k)
+  destruct (all_ok (fun st k => fetch_comp f strict fs m0 st (Some (key_of o url)) (hist ++ [fetch_epoch o url]) k)
                    (ckids sc) st2) as [[b3 st3]| |] eqn:E3; try discriminate.
   assert (G3 : grow st2 st3).
   { eapply all_ok_grow; [|exact E3]. intros k x b' x' Es. cbv beta in Es. eapply IH. exact Es. }
@@ -1709,10 +1717,10 @@ Proof.
   destruct (existsb (related_comp (find_comp (m_comps sm) ref)) errs); [discriminate|].
   destruct (check_cycle st1 m0 [] (fetch_epoch None url)); [discriminate|].
   destruct (find_comp (m_comps sm) ref) as [sc|]; [|discriminate].
-  destruct (fetch_comp f strict fs m0 st1 (Some (mk_key url)) ([] ++ [fetch_epoch None url]) sc) as [[b2 st2]| |] eqn:E2;
+  destruct (fetch_comp f strict fs m0 st1 (Some (key_of None url)) ([] ++ [fetch_epoch None url]) sc) as [[b2 st2]| |] eqn:E2;
     try discriminate.
   pose proof (fetch_comp_grow _ _ _ _ _ _ _ _ _ _ E2) as G2. destruct b2; [|discriminate].
-  destruct (all_ok (fun st k => fetch_comp f strict fs m0 st (Some (mk_key url)) ([] ++ [fetch_epoch None url]) k)
+  destruct (all_ok (fun st k => fetch_comp f strict fs m0 st (Some (key_of None url)) ([] ++ [fetch_epoch None url]) k)
                    (ckids sc) st2) as [[b3 st3]| |] eqn:E3; try discriminate.
   assert (G3 : grow st2 st3).
   { eapply all_ok_grow; [|exact E3]. intros k x b' x' Es. cbv beta in Es. eapply fetch_comp_grow. exact Es. }
@@ -1757,7 +1765,7 @@ Definition comp_linked (st : state) (c : comp) : Prop :=
 Lemma linked_grow : forall st st' o sid url, grow st st' -> linked_model st o sid url <> None -> linked_model st' o sid url <> None.
 Proof.
   intros st st' o sid url [L M] H. unfold linked_model in *. destruct (has_link st o sid) eqn:Hl; [|congruence].
-  rewrite (L _ _ Hl). destruct (lib_get (lib st) (mk_key url)) eqn:Hg; [|congruence]. rewrite (M _ _ Hg). discriminate.
+  rewrite (L _ _ Hl). destruct (lib_get (lib st) (key_of o url)) eqn:Hg; [|congruence]. rewrite (M _ _ Hg). discriminate.
 Qed.
 
 (* resolveImports = true => every import source of the model has its model: the first thing
@@ -1854,11 +1862,11 @@ Section ScanTotal.
     find_units (m_units cm) r = Some cu -> urank o (uname cu) < urank o n.
   Hypothesis U_imp : forall o cm n sid url ref sm iu, owns o cm -> In (UImp n sid url ref) (m_units cm) ->
     linked_model st o sid url = Some sm -> find_units (m_units sm) ref = Some iu ->
-    urank (Some (mk_key url)) (uname iu) < urank o n.
+    urank (Some (key_of o url)) (uname iu) < urank o n.
   Hypothesis C_imp : forall o cm n sid url ref used kids sm ic, owns o cm ->
     In (Comp n (Some (sid, url, ref)) used kids) (all_comps cm) ->
     linked_model st o sid url = Some sm -> find_comp (m_comps sm) ref = Some ic ->
-    crank (Some (mk_key url)) (cname ic) < crank o n.
+    crank (Some (key_of o url)) (cname ic) < crank o n.
   Hypothesis C_kid : forall o cm c k, owns o cm -> In c (all_comps cm) -> In k (ckids c) ->
     crank o (cname k) <= crank o (cname c).
 
@@ -1868,7 +1876,7 @@ Section ScanTotal.
   Lemma same_ll_linked : forall s o sid url, same_ll s -> linked_model s o sid url = linked_model st o sid url.
   Proof. intros s o sid url [L B]. unfold linked_model, has_link. rewrite L, B. reflexivity. Qed.
 
-  Lemma linked_owns : forall o sid url sm, linked_model st o sid url = Some sm -> owns (Some (mk_key url)) sm.
+  Lemma linked_owns : forall o sid url sm, linked_model st o sid url = Some sm -> owns (Some (key_of o url)) sm.
   Proof. intros o sid url sm H. unfold linked_model in H. destruct (has_link st o sid); [exact H|discriminate]. Qed.
 
   Lemma same_ll_add : forall s r it, same_ll s -> same_ll (add_issue s r it).
@@ -1890,13 +1898,13 @@ Section ScanTotal.
     - rewrite (same_ll_linked _ _ _ _ Hs). destruct (linked_model st o sid url) as [sm|] eqn:El; [|exact I].
       destruct (find_units (m_units sm) ref) as [iu|] eqn:Eiu; [|exact I].
       destruct (check_cycle s m0 hist _); [exact I|].
-      assert (G : fine (fun _ => True) (units_test fx f ty s m0 (Some (mk_key url)) sm
-                 (hist ++ [{| e_src := importee_url hist url; e_dst := url; e_srcm := o; e_dstm := Some (mk_key url) |}]) iu)).
+      assert (G : fine (fun _ => True) (units_test fx f ty s m0 (Some (key_of o url)) sm
+                 (hist ++ [{| e_src := importee_url hist url; e_dst := url; e_srcm := o; e_dstm := Some (key_of o url) |}]) iu)).
       { apply IH; auto.
         - eapply linked_owns; eauto.
         - eapply find_units_In; eauto.
         - pose proof (U_imp _ _ _ _ _ _ _ _ Ho Hin El Eiu). cbn [uname] in Hr. lia. }
-      destruct (units_test fx f ty s m0 (Some (mk_key url)) sm _ iu) as [[b h]| |]; cbn in *; auto.
+      destruct (units_test fx f ty s m0 (Some (key_of o url)) sm _ iu) as [[b h]| |]; cbn in *; auto.
   Qed.
 
   Lemma cufc_total : forall fuel o cm hist s u,
@@ -2172,4 +2180,88 @@ Proof.
     - lia.
     - destruct Hin as [Habs|[]]. discriminate. }
   intros o cm c k E Hin Hk. destruct o; lia.
+Qed.
+
+(* ------------------------------------------------------------------------------------------ the base path *)
+
+Lemma norm_sep_app : forall a b, norm_sep (String.append a b) = String.append (norm_sep a) (norm_sep b).
+Proof. induction a as [|c r IH]; intros b; [reflexivity|]. cbn. rewrite IH. reflexivity. Qed.
+
+Lemma norm_sep_idem : forall s, norm_sep (norm_sep s) = norm_sep s.
+Proof.
+  induction s as [|c r IH]; [reflexivity|]. cbn [norm_sep]. rewrite IH.
+  destruct (Ascii.eqb c "\"%char) eqn:E; [reflexivity|]. rewrite E. reflexivity.
+Qed.
+
+Lemma upto_last_slash_app : forall a b,
+  upto_last_slash (String.append a b) =
+  match upto_last_slash b with Some p => Some (String.append a p) | None => upto_last_slash a end.
+Proof.
+  induction a as [|c r IH]; intros b; [cbn; destruct (upto_last_slash b); reflexivity|].
+  cbn [String.append upto_last_slash]. rewrite IH. destruct (upto_last_slash b); reflexivity.
+Qed.
+
+Lemma ends_with_slash_app : forall a b, ends_with_slash b = true -> ends_with_slash (String.append a b) = true.
+Proof.
+  induction a as [|c r IH]; intros b H; [exact H|]. cbn [String.append ends_with_slash].
+  destruct (String.append r b) eqn:E; [|rewrite <- E; apply IH; exact H].
+  destruct r; [cbn in E; subst b; discriminate|discriminate].
+Qed.
+
+Lemma upto_ends : forall s p, upto_last_slash s = Some p -> ends_with_slash p = true.
+Proof.
+  induction s as [|c r IH]; intros p H; [discriminate|]. cbn [upto_last_slash] in H.
+  destruct (upto_last_slash r) as [q|] eqn:E.
+  - inversion H; subst. specialize (IH q eq_refl). cbn [ends_with_slash]. destruct q; [discriminate|exact IH].
+  - destruct (Ascii.eqb c "/"%char) eqn:Ec; [|discriminate]. inversion H; subst. cbn. exact Ec.
+Qed.
+
+(* the prefix up to the last '/' of a normalised string is normalised *)
+Lemma upto_norm : forall s p, norm_sep s = s -> upto_last_slash s = Some p -> norm_sep p = p.
+Proof.
+  induction s as [|c r IH]; intros p Hn H; [discriminate|]. cbn [norm_sep] in Hn. injection Hn as Hc Hr.
+  cbn [upto_last_slash] in H. destruct (upto_last_slash r) as [q|] eqn:E.
+  - injection H as <-. cbn [norm_sep]. rewrite Hc. f_equal. apply IH; [exact Hr|reflexivity].
+  - destruct (Ascii.eqb c "/"%char); [|discriminate]. injection H as <-. cbn [norm_sep]. rewrite Hc. reflexivity.
+Qed.
+
+(* a base path as the code keeps it: separators normalised, empty or ending in '/' *)
+Definition good_base (b : string) : Prop := norm_sep b = b /\ (b = EmptyString \/ ends_with_slash b = true).
+
+Lemma path_from_url_good : forall b, good_base b -> path_from_url b = b.
+Proof.
+  intros b [Hn [->|He]]; [reflexivity|]. unfold path_from_url. rewrite Hn, (upto_last_slash_dir _ He). reflexivity.
+Qed.
+
+(* fetchUnits / fetchComponent hand "newBase = baseFile + pathFromUrl(url)" to the entities of the imported model;
+   that is the directory part of the key under which fetchModel stored the model: the model's [base_of]. *)
+Lemma new_base_dir : forall base url, good_base base ->
+  new_base url base = base_of (Some (import_key url base)) /\ good_base (new_base url base).
+Proof.
+  intros base url Hg. pose proof (path_from_url_good _ Hg) as Hp. destruct Hg as [Hn He].
+  unfold new_base, base_of, import_key, resolve_path, path_from_url at 2. rewrite Hp.
+  rewrite norm_sep_app, Hn, norm_sep_idem, upto_last_slash_app. unfold path_from_url.
+  destruct (upto_last_slash (norm_sep url)) as [p|] eqn:Eu.
+  - split; [reflexivity|]. split.
+    + rewrite norm_sep_app, Hn. f_equal.
+      eapply upto_norm; [apply norm_sep_idem|exact Eu].
+    + right. apply ends_with_slash_app. eapply upto_ends. exact Eu.
+  - rewrite append_nil_r. destruct He as [->|He].
+    + split; [reflexivity|]. split; [reflexivity|left; reflexivity].
+    + rewrite (upto_last_slash_dir _ He). split; [reflexivity|]. split; [exact Hn|right; exact He].
+Qed.
+
+Lemma dir_prefix_good : good_base dir_prefix.
+Proof. split; [reflexivity|right; reflexivity]. Qed.
+
+(* plain file names in one directory: the generalised keys are the flat ones *)
+Lemma key_of_flat : forall url, no_sep url = true ->
+  key_of None url = mk_key url /\ forall u', no_sep u' = true -> key_of (Some (mk_key u')) url = mk_key url.
+Proof.
+  intros url Hu. destruct (norm_sep_no_sep _ Hu) as [Hn _]. split.
+  - unfold key_of, base_of, import_key, resolve_path. rewrite Hn. reflexivity.
+  - intros u' Hu'. destruct (norm_sep_no_sep _ Hu') as [Hn' Hs'].
+    unfold key_of, base_of, import_key, resolve_path, mk_key, dir_prefix. rewrite Hn.
+    assert (path_from_url (String.append "/" u') = "/") as ->; [|assert (path_from_url "/" = "/") as -> by reflexivity; reflexivity].
+    unfold path_from_url. cbn [String.append norm_sep]. rewrite Hn'. cbn [upto_last_slash]. rewrite Hs'. reflexivity.
 Qed.
